@@ -295,3 +295,39 @@ package lfs
 //@   assumed
 //@   props C03
 //@   noeffect
+
+// C03: the small-blob filter of the object scan.  A `<id> blob <size>` line
+// whose size is below the pointer cutoff always makes its id a pointer
+// candidate (whatever the size: old pointer formats are short); at or above
+// the cutoff it is reported as a plain Git blob.
+//@ func (*catFileBatchCheckScanner).next
+//@   props C03
+//@   requires @inv s != nil && s.s != nil
+//@   ensures str_indexbyte(lasttext(), 32) != -1 && len(lasttext()) >= str_indexbyte(lasttext(), 32) + 6 && bsub(lasttext(), str_indexbyte(lasttext(), 32) + 1, str_indexbyte(lasttext(), 32) + 5) == "blob" && atoi_ok(bsub(lasttext(), str_indexbyte(lasttext(), 32) + 6, len(lasttext()))) && str_to_int(bsub(lasttext(), str_indexbyte(lasttext(), 32) + 6, len(lasttext()))) < s.limit ==> result0 == bsub(lasttext(), 0, str_indexbyte(lasttext(), 32)) && result1 == ""
+//@   ensures str_indexbyte(lasttext(), 32) != -1 && len(lasttext()) >= str_indexbyte(lasttext(), 32) + 6 && bsub(lasttext(), str_indexbyte(lasttext(), 32) + 1, str_indexbyte(lasttext(), 32) + 5) == "blob" && atoi_ok(bsub(lasttext(), str_indexbyte(lasttext(), 32) + 6, len(lasttext()))) && str_to_int(bsub(lasttext(), str_indexbyte(lasttext(), 32) + 6, len(lasttext()))) >= s.limit ==> result0 == "" && result1 == bsub(lasttext(), 0, str_indexbyte(lasttext(), 32))
+
+// C05: what prune retains because it is unpushed or stashed must not depend
+// on the include/exclude path filter (an excluded path still has its only
+// copy here): both scans read every addition, unfiltered, and the unpushed
+// scan asks Git for everything reachable from local branches and tags but not
+// from the remote's refs.
+//@ func scanUnpushed
+//@   props C05
+//@   at call lfs.parseScannerLogOutput:1 assert arg3__ == nil && arg1__ == LogDiffAdditions && arg0__ == cb
+//@   at call git.Log:1 assert len(arg0__) >= 4 && arg0__[0] == "--branches" && arg0__[1] == "--tags" && arg0__[2] == "--not" && (len(remote) == 0 ==> arg0__[3] == "--remotes")
+//@ func scanStashed
+//@   props C05
+//@   at call lfs.parseScannerLogOutput:1 assert arg3__ == nil && arg1__ == LogDiffAdditions && arg0__ == cb
+//@ func (*GitScanner).ScanUnpushed
+//@   props C05
+//@   requires @inv s != nil
+//@   at call lfs.scanUnpushed:1 assert arg1__ == remote
+//@ func parseScannerLogOutput
+//@   assumed
+//@   props C05
+//@   modifies heap
+//@ func github.com/git-lfs/git-lfs/v3/git.Log
+//@   assumed
+//@   props C05
+//@   modifies fresh
+//@   ensures result1 == nil ==> result0 != nil
